@@ -406,3 +406,11 @@ Proof.
   split; [exact demo_world_ok|]. split; [left; reflexivity|]. split; [reflexivity|].
   vm_compute. discriminate.
 Qed.
+
+Lemma radd_before_fix_refuted :
+  let r := {| rbase := 2^44; rsize := 65536 |} in
+  radd_before_fix (2^44 + 65528) 3 8 = Ok (2^44 + 65552) /\
+  ptr_arith_spec [r] false (2^44 + 65528) 3 4 = Abort /\
+  ptr_arith [r] false (2^44 + 65528) 3 4 = Abort /\
+  radd_before_fix 0 5 8 = Ok 40 /\ ptr_arith [r] false 0 5 4 = Abort.
+Proof. vm_compute. repeat split; reflexivity. Qed.
